@@ -102,7 +102,7 @@ def _expand(sub, args):
     return out
 
 
-def bfs(ctx, model, max_depth=None, max_states=None, chunk=4, label='bfs'):
+def bfs(ctx, model, max_depth=None, max_states=None, chunk=4, label='bfs', budget_s=None):
     '''
     Search to closure (or to max_depth / max_states, reported as a cap).
     Returns dict(states=..., depth=..., closed=bool).
@@ -118,6 +118,7 @@ def bfs(ctx, model, max_depth=None, max_states=None, chunk=4, label='bfs'):
             frontier.append(h)
     depth = 0
     closed = True
+    t_start = ctx.elapsed()
     while frontier:
         if max_depth is not None and depth >= max_depth:
             closed = False
@@ -139,7 +140,7 @@ def bfs(ctx, model, max_depth=None, max_states=None, chunk=4, label='bfs'):
                     nxt.append(h + [op])
         frontier = nxt
         depth += 1
-        if ctx.time_left() < 0:
+        if ctx.time_left() < 0 or (budget_s is not None and ctx.elapsed() - t_start > budget_s and frontier):
             closed = False
             ctx.cap('%s: time budget reached at depth %d' % (label, depth))
             break
